@@ -374,11 +374,14 @@ type world struct {
 	timeouts  int
 	holds     map[string]map[id2]bool // Fetch API cases: host -> the documents it stores (nil: every requested one)
 	stallFired bool
+	honour    bool                // the stores answer with the first Size+Offset IDs of what they hold (tcase.cap)
+	gotReq    map[string][2]int64 // host -> (Size, Offset) of the last search request it received
+	trickleOn bool                // the T<k> fetch ops really wait (Export runs only)
 }
 
 func newWorld() *world {
 	return &world{search: map[string]call{}, gated: map[string]bool{}, fetchOps: map[string]string{}, called: map[string]int{},
-		fetchReq: map[string][]string{}, fetchHint: map[string][]string{}, delivered: map[string][]ev{}, fetchFail: map[string]bool{}}
+		fetchReq: map[string][]string{}, fetchHint: map[string][]string{}, delivered: map[string][]ev{}, fetchFail: map[string]bool{}, gotReq: map[string][2]int64{}}
 }
 
 type fake struct {
@@ -397,10 +400,15 @@ func (f *fake) Search(ctx context.Context, in *storeapi.SearchRequest, _ ...grpc
 	w := f.w
 	w.mu.Lock()
 	w.called[f.host]++
+	w.gotReq[f.host] = [2]int64{in.Size, in.Offset}
 	c, ok := w.search[f.host]
 	gated := w.gated[f.host]
 	hint := w.hint
+	honour := w.honour
 	w.mu.Unlock()
+	if lim := in.Size + in.Offset; honour && lim >= 0 && int64(len(c.ids)) > lim {
+		c.ids = c.ids[:lim] // an honest store: its newest Size+Offset matches
+	}
 	if !ok {
 		return nil, status.Error(codes.Unavailable, "no script")
 	}
@@ -538,7 +546,15 @@ type fetchStream struct {
 	pos int
 	ctx context.Context
 	w   *world
+	slowAt int // k+1: before delivering event k the store takes trickleDelay (op T<k>); 0: never
 }
+
+// a store that trickles: longer than the SearchTimeout of the export runs, far below their ExportTimeout
+const (
+	trickleDelay         = 330 * time.Millisecond
+	trickleSearchTimeout = 150 * time.Millisecond
+	trickleExportTimeout = 5 * time.Second
+)
 
 func packDoc(id id2, tok int) []byte {
 	b := disk.PackDocBlock(payload(tok), nil)
@@ -550,6 +566,14 @@ func packDoc(id id2, tok int) []byte {
 func (s *fetchStream) Recv() (*storeapi.BinaryData, error) {
 	if s.pos >= len(s.evs) {
 		return nil, io.EOF
+	}
+	if s.slowAt > 0 && s.pos == s.slowAt-1 {
+		s.slowAt = 0
+		select {
+		case <-time.After(trickleDelay):
+		case <-s.ctx.Done():
+			return nil, status.FromContextError(s.ctx.Err()).Err()
+		}
 	}
 	e := s.evs[s.pos]
 	if e.stall {
@@ -595,7 +619,16 @@ func (f *fake) Fetch(ctx context.Context, in *storeapi.FetchRequest, _ ...grpc.C
 	}
 	evs := applyOps(f.host, req, ops, w.holds)
 	w.delivered[f.host] = evs
-	return &fetchStream{evs: evs, ctx: ctx, w: w}, nil
+	slowAt := 0
+	if w.trickleOn {
+		for _, op := range strings.Split(ops, ",") {
+			if len(op) >= 2 && op[0] == 'T' {
+				k, _ := strconv.Atoi(op[1:])
+				slowAt = k + 1
+			}
+		}
+	}
+	return &fetchStream{evs: evs, ctx: ctx, w: w, slowAt: slowAt}, nil
 }
 
 // ---------------------------------------------------------------- topology helpers
@@ -993,6 +1026,7 @@ type tcase struct {
 	wh, wc    int
 	fb        map[string]string // host -> fetch ops
 	shuf      map[int][]int     // ShuffleReplicas=true: replica count -> order in which the replicas are asked
+	cap       int               // > 0: conf.MaxRequestedDocuments = cap and the stores are honest: a script's IDs are what the store HOLDS, it answers with the first Size+Offset of the request it receives
 }
 
 func (c tcase) String() string {
@@ -1010,8 +1044,8 @@ func (c tcase) String() string {
 		}
 		return r
 	}
-	return fmt.Sprintf("case hot=%s cold=%s hr=%s off=%d size=%d rev=%s hint=%d fetch=%s wh=%d wc=%d fb=%s shuf=%s",
-		fmtTier(c.hot, all(c.hot)), fmtTier(c.cold, all(c.cold)), vh.B(c.hotRead), c.off, c.size, vh.B(c.rev), c.hint, vh.B(c.fetch), c.wh, c.wc, vh.JoinStrs(fb, ";"), fmtShuf(c.shuf))
+	return fmt.Sprintf("case hot=%s cold=%s hr=%s off=%d size=%d rev=%s hint=%d fetch=%s wh=%d wc=%d fb=%s shuf=%s cap=%d",
+		fmtTier(c.hot, all(c.hot)), fmtTier(c.cold, all(c.cold)), vh.B(c.hotRead), c.off, c.size, vh.B(c.rev), c.hint, vh.B(c.fetch), c.wh, c.wc, vh.JoinStrs(fb, ";"), fmtShuf(c.shuf), c.cap)
 }
 
 func parseCase(line string) (tcase, error) {
@@ -1058,6 +1092,8 @@ func parseCase(line string) (tcase, error) {
 			}
 		case "shuf":
 			c.shuf = parseShuf(p[1])
+		case "cap":
+			c.cap, _ = strconv.Atoi(p[1])
 		}
 		if err != nil {
 			return c, err
@@ -1081,10 +1117,37 @@ type result struct {
 	cancelAfter int // the request deadline fired during this many-th call of the document iterator (-1: it did not)
 }
 
+var defaultMaxDocs = conf.MaxRequestedDocuments
+
+// eff: the case as the model sees it - an honest store asked for the whole page answers with its first off+size IDs
+func eff(c tcase) tcase {
+	if c.cap <= 0 || uint64(c.off)+uint64(c.size) >= 1<<62 {
+		return c
+	}
+	cut := func(t [][]call) [][]call {
+		res := make([][]call, len(t))
+		for s := range t {
+			res[s] = append([]call{}, t[s]...)
+			for r := range res[s] {
+				if len(res[s][r].ids) > c.off+c.size {
+					res[s][r].ids = res[s][r].ids[:c.off+c.size]
+				}
+			}
+		}
+		return res
+	}
+	c.hot, c.cold = cut(c.hot), cut(c.cold)
+	return c
+}
+
 // buildCase installs the scripts of a case into a fresh world and returns the ingestor over the fakes
 func buildCase(c tcase) (*world, *search.Ingestor, byte) {
 	w := newWorld()
 	w.hint = hintStr(c.hint)
+	conf.MaxRequestedDocuments = defaultMaxDocs
+	if c.cap > 0 {
+		conf.MaxRequestedDocuments, w.honour = c.cap, true
+	}
 	hotTier := byte('h')
 	if c.hotRead {
 		hotTier = 'r'
@@ -1197,7 +1260,8 @@ func copyMap[V any](m map[string]V) map[string]V {
 // snapshot must be called with w.mu held
 func (w *world) snapshot() *world {
 	return &world{search: copyMap(w.search), gated: copyMap(w.gated), fetchOps: copyMap(w.fetchOps), hint: w.hint, called: copyMap(w.called),
-		fetchReq: copyMap(w.fetchReq), fetchHint: copyMap(w.fetchHint), delivered: copyMap(w.delivered), fetchFail: copyMap(w.fetchFail), timeouts: w.timeouts, holds: w.holds, stallFired: w.stallFired}
+		fetchReq: copyMap(w.fetchReq), fetchHint: copyMap(w.fetchHint), delivered: copyMap(w.delivered), fetchFail: copyMap(w.fetchFail), timeouts: w.timeouts, holds: w.holds, stallFired: w.stallFired,
+		honour: w.honour, gotReq: copyMap(w.gotReq), trickleOn: w.trickleOn}
 }
 
 // runAPI sends the case through proxyapi's Search handler (doSearch, processSearchErrors, makeProtoDocs)
@@ -1310,6 +1374,13 @@ func runExport(c tcase) (impl string, endedOK bool, sent []sdoc, w *world) {
 	c.rev = false
 	w0, si, _ := buildCase(c)
 	api := proxyapi.VerifNewGrpcV1C16T(si, 20*time.Second, 20*time.Second)
+	if hasTrickle(c) {
+		// the documents trickle in for longer than SearchTimeout, well within ExportTimeout
+		api = proxyapi.VerifNewGrpcV1C16T(si, trickleSearchTimeout, trickleExportTimeout)
+		w0.mu.Lock()
+		w0.trickleOn = true
+		w0.mu.Unlock()
+	}
 	req := &seqproxyapi.ExportRequest{
 		Query:  &seqproxyapi.SearchQuery{Query: "message:x", From: timestamppb.New(time.UnixMilli(0)), To: timestamppb.New(time.UnixMilli(1 << 40))},
 		Size:   int64(c.size),
@@ -1695,6 +1766,25 @@ func hasStall(c tcase) bool {
 	return false
 }
 
+// hasTrickle: some store's fetch stream pauses for trickleDelay before its k-th document (op T<k>); only Export runs wait
+func hasTrickle(c tcase) bool {
+	for _, ops := range c.fb {
+		if strings.Contains(ops, "T") {
+			return true
+		}
+	}
+	return false
+}
+
+func onlyTrickle(ops string) bool {
+	for _, op := range strings.Split(ops, ",") {
+		if op != "" && op != "-" && op[0] != 'T' {
+			return false
+		}
+	}
+	return true
+}
+
 func reqTimeout(c tcase) time.Duration {
 	if hasStall(c) {
 		return stallTimeout
@@ -1846,7 +1936,7 @@ func faultFree(c tcase) bool {
 		}
 	}
 	for _, ops := range c.fb {
-		if ops != "" && ops != "-" {
+		if !onlyTrickle(ops) { // a slow store is not a fault
 			return false
 		}
 	}
@@ -1923,7 +2013,17 @@ func checkProperty(c tcase, r result) []finding {
 		}
 	}
 	want := expectedTop(lists, c.rev, c.off, c.size)
-	if fmtIDs(want) != fmtIDs(r.ids) {
+	asked := ""
+	if uint64(c.off)+uint64(c.size) < 1<<62 {
+		for _, h := range vh.SortedKeys(w.gotReq) {
+			if g := w.gotReq[h]; g[0]+g[1] < int64(c.off+c.size) && asked == "" {
+				asked = fmt.Sprintf("store %s was asked for Size=%d Offset=%d, the request is Size=%d Offset=%d", h, g[0], g[1], c.size, c.off)
+			}
+		}
+	}
+	if fmtIDs(want) != fmtIDs(r.ids) && asked != "" {
+		bad("proxy/search/search_request.go:GetAPISearchRequest", "page-cut-at-the-stores", fmt.Sprintf("every store answers with its newest Size+Offset matches, but %s (conf.MaxRequestedDocuments=%d): returned IDs %s are not the top of the merge over the answering shards (%s) and nothing is flagged", asked, conf.MaxRequestedDocuments, fmtIDs(r.ids), fmtIDs(want)))
+	} else if fmtIDs(want) != fmtIDs(r.ids) {
 		bad("proxy/search/ingestor.go:Search", "wrong-top", fmt.Sprintf("returned IDs %s are not the top of the merge over the answering shards (%s)", fmtIDs(r.ids), fmtIDs(want)))
 	}
 	if answered < len(tier) && !r.partial {
@@ -2147,6 +2247,41 @@ func genCase(r *vh.RNG) tcase {
 	return c
 }
 
+// genCapCase: honest stores (a script's IDs are what the store holds; it answers with the first Size+Offset of the request
+// it receives), conf.MaxRequestedDocuments small, skewed ownership, pages around and above the cap
+func genCapCase(r *vh.RNG) tcase {
+	c := tcase{fb: map[string]string{}, wh: -1, wc: -1}
+	c.rev = r.Chance(1, 3)
+	c.cap = r.Range(1, 6)
+	c.size = r.Range(max(1, c.cap-1), c.cap+6)
+	c.off = []int{0, 0, 1, 2}[r.Intn(4)]
+	c.fetch = r.Chance(1, 2)
+	if r.Chance(1, 4) {
+		c.hint = 7
+	}
+	S := r.Range(2, 3)
+	for s := 0; s < S; s++ {
+		n := r.Range(0, 4)
+		if s == 0 || r.Chance(1, 3) {
+			n = r.Range(5, 11) // the shard that owns most of the top
+		}
+		ids := genIDs(r, s, n, c.rev, 10)
+		var reps []call
+		for rep := 0; rep < r.Range(1, 2); rep++ {
+			if r.Chance(1, 8) {
+				reps = append(reps, call{kind: 'f'})
+			} else {
+				reps = append(reps, call{kind: 'r', code: 'n', total: len(ids), ids: ids})
+			}
+		}
+		c.hot = append(c.hot, reps)
+	}
+	if r.Chance(1, 3) {
+		c.shuf = map[int][]int{2: r.Perm(2), 3: r.Perm(3)}
+	}
+	return c
+}
+
 // small scope: 2 shards x up to 2 replicas, every script over a reduced alphabet, with a cold tier
 func smallCases(r *vh.RNG, thorough bool) []tcase {
 	okA := call{kind: 'r', code: 'n', total: 2, ids: []id2{{9, 1}, {5, 1}}}
@@ -2180,6 +2315,42 @@ func smallCases(r *vh.RNG, thorough bool) []tcase {
 		a := []call{{kind: 'r', code: 'n', total: 2, ids: []id2{{40, 1}, {30, 1}}}}
 		b := []call{{kind: 'r', code: 'n', total: 2, ids: []id2{{35, 2}, {25, 2}}}}
 		res = append(res, tcase{hot: [][]call{a, b}, size: 4, hint: hint, fetch: true, wh: -1, wc: -1, fb: map[string]string{"h0_0": "x0", "h1_0": "x0"}})
+	}
+	// a slow store: its documents trickle in for longer than SearchTimeout but well within ExportTimeout - Export must
+	// still deliver every document (or end with an error); only the Export runs really wait
+	{
+		a := []call{{kind: 'r', code: 'n', total: 4, ids: []id2{{40, 1}, {30, 1}, {20, 1}, {10, 1}}}}
+		b := []call{{kind: 'r', code: 'n', total: 3, ids: []id2{{35, 2}, {25, 2}, {15, 2}}}}
+		res = append(res, tcase{hot: [][]call{a}, size: 4, fetch: true, wh: -1, wc: -1, fb: map[string]string{"h0_0": "T1"}})
+		res = append(res, tcase{hot: [][]call{a, b}, size: 6, hint: 7, fetch: true, wh: -1, wc: -1, fb: map[string]string{"h1_0": "T0"}})
+		res = append(res, tcase{hot: [][]call{a, b}, size: 7, fetch: true, wh: -1, wc: -1, fb: map[string]string{"h0_0": "T2"}})
+	}
+	// honest stores under a small conf.MaxRequestedDocuments: shard 0 holds most of the requested top, the page is larger than
+	// the cap (Search / ComplexSearch accept that): the result must still be the top of the merged truth
+	for _, cp := range []int{1, 2, 3, 5} {
+		for _, off := range []int{0, 1} {
+			for _, rev := range []bool{false, true} {
+				var ha, hb []id2
+				for i := 0; i < 7; i++ { // shard 0: the 7 first in the order, shard 1: 4 after them
+					ha = append(ha, id2{uint64(30 - i), 1})
+				}
+				for i := 0; i < 4; i++ {
+					hb = append(hb, id2{uint64(20 - i), 2})
+				}
+				if rev {
+					for i := range ha {
+						ha[i][0] = uint64(10 + i)
+					}
+					for i := range hb {
+						hb[i][0] = uint64(20 + i)
+					}
+				}
+				for _, size := range []int{cp, cp + 1, cp + 3, 8} {
+					res = append(res, tcase{hot: [][]call{{{kind: 'r', code: 'n', total: 7, ids: ha}}, {{kind: 'f'}, {kind: 'r', code: 'n', total: 4, ids: hb}}},
+						off: off, size: size, rev: rev, fetch: size%2 == 0, wh: -1, wc: -1, fb: map[string]string{}, cap: cp})
+				}
+			}
+		}
 	}
 	// Offset+Size at and beyond the int range: the sum wraps for MaxInt64+1 ... (MergeQPRs panics), not for 2^62+...
 	for _, off := range []int{math.MaxInt64, math.MaxInt64 - 1, 1 << 62} {
@@ -2273,6 +2444,9 @@ func main() {
 		for i := 0; i < n; i++ {
 			cases = append(cases, genCase(rng))
 		}
+		for i := 0; i < n/8; i++ {
+			cases = append(cases, genCapCase(rng))
+		}
 	}
 
 	chExport := vh.NewChannel("export", "real proxyapi Export handler (doSearch, then every item of the document stream with the Id taken from the document) vs SV.ProxyApi.apiExport: error class before anything is sent, or the (id, bytes) pairs sent and how the stream ends; non-trivial = a fault was injected")
@@ -2281,14 +2455,19 @@ func main() {
 	for _, c := range cases {
 		useShuffle(c.shuf)
 		r := runCase(c)
+		m := eff(c) // what the model is told the stores answered (honest stores: their first off+size IDs)
 		if !hasStall(c) { // Export has its own (long) timeout; the stalled-fetch cases are about the Search handlers
 			implX, endedOK, sentX, wx := runExport(c)
 			orderX, behavX, unkX := fetchTrace(wx)
 			sharedX := sharedIDs(c.hot) || sharedIDs(c.cold)
 			if unkX <= 1 && !(sharedX && len(wx.fetchReq) > 0) && wx.timeouts == 0 {
 				wh, wc := normWinner(c.hot, c.wh), normWinner(c.cold, c.wc)
-				chExport.Add(fmt.Sprintf("export %d %s %s %d %d %d %s %s", conf.MaxRequestedDocuments, fmtTier(c.hot, arrivalOrder(c.hot, wh)), fmtTier(c.cold, arrivalOrder(c.cold, wc)),
+				chExport.Add(fmt.Sprintf("export %d %s %s %d %d %d %s %s", conf.MaxRequestedDocuments, fmtTier(m.hot, arrivalOrder(c.hot, wh)), fmtTier(m.cold, arrivalOrder(c.cold, wc)),
 					c.off, c.size, c.hint, vh.JoinInts(orderX), vh.JoinStrs(behavX, "|")), implX, !faultFree(c), "answer="+strings.Join(strings.Fields(implX)[:min(2, len(strings.Fields(implX)))], "-"))
+			}
+			if endedOK && !c.rev && r.kind == "ok" && faultFree(c) && len(sentX) != len(r.ids) {
+				// nothing failed (a store may be slow: its documents trickle in past SearchTimeout, within ExportTimeout)
+				rep.Violate(vh.Violation{Site: "proxyapi/grpc_export.go:Export", Class: "prefix-as-complete", What: fmt.Sprintf("every shard answered and every fetch stream is well-formed; Search returns %d IDs, Export streamed %d documents and ended with status OK (slow store: %v): an incomplete export presented as complete", len(r.ids), len(sentX), hasTrickle(c)), Replay: []string{c.String()}})
 			}
 			if endedOK {
 				if clean, why := cleanAnswer(c, wx); !clean {
@@ -2316,7 +2495,7 @@ func main() {
 			shared := sharedIDs(c.hot) || sharedIDs(c.cold)
 			if unk <= 1 && !(shared && len(wa.fetchReq) > 0) && wa.timeouts == 0 {
 				wh, wc := normWinner(c.hot, c.wh), normWinner(c.cold, c.wc)
-				reqAPI := fmt.Sprintf("api %s %s %d %d %s %d %s %s", fmtTier(c.hot, arrivalOrder(c.hot, wh)), fmtTier(c.cold, arrivalOrder(c.cold, wc)),
+				reqAPI := fmt.Sprintf("api %s %s %d %d %s %d %s %s", fmtTier(m.hot, arrivalOrder(c.hot, wh)), fmtTier(m.cold, arrivalOrder(c.cold, wc)),
 					c.off, c.size, vh.B(c.rev), c.hint, vh.JoinInts(order), vh.JoinStrs(behav, "|")) + caSuffix(r.cancelAfter)
 				chAPI.Add(reqAPI, implAPI, !faultFree(c), "answer="+strings.Join(strings.Fields(implAPI)[:min(2, len(strings.Fields(implAPI)))], "-"))
 			}
@@ -2360,7 +2539,10 @@ func main() {
 				rep.Violate(vh.Violation{Site: "proxyapi/grpc_search.go:Search", Class: "inconsistent-partial-flag", What: implAPI, Replay: []string{c.String()}})
 			}
 		}
-		req, impl, comparable, tags := toModel(c, r)
+		req, impl, comparable, tags := toModel(m, r)
+		if c.cap > 0 {
+			tags = append(tags, fmt.Sprintf("sizeAboveStoreCap=%s", vh.B(c.size > c.cap)))
+		}
 		faulty := !faultFree(c)
 		if comparable {
 			chFull.Add(req, impl, faulty, tags...)
@@ -2388,6 +2570,9 @@ func main() {
 		var wcases []tcase
 		for _, c := range cases {
 			big := c.off >= 1<<62 || hasStall(c) || twoUnknown(c)
+			if c.cap > 0 {
+				continue // conf.MaxRequestedDocuments is process-wide: the honest-store cases stay in this process
+			}
 			if big || (len(wcases) < o.Pick(150, 600) && !sharedIDs(c.hot) && !sharedIDs(c.cold) && len(c.shuf) == 0) {
 				wcases = append(wcases, c)
 			}
@@ -2522,6 +2707,20 @@ func main() {
 }
 
 func componentChannels(rep *vh.Report, o vh.Opts, rng *vh.RNG) {
+	// ---- the request a store receives
+	chReq := vh.NewChannel("storereq", "real SearchRequest.GetAPISearchRequest under conf.MaxRequestedDocuments in {0, 1, 5, 100000} vs SV.ProxyApi.storeRequest: Size, Offset and the store's limit Size+Offset for offsets / sizes around the cap and up to 2^62; non-trivial = Size above the cap")
+	chReq.Exhaustive = true
+	for _, cp := range []int{0, 1, 5, defaultMaxDocs} {
+		conf.MaxRequestedDocuments = cp
+		for _, off := range []int{0, 1, 7, 100000, 1 << 62} {
+			for _, size := range []int{0, 1, 4, 5, 6, 99999, 100000, 100001, 150000, math.MaxInt32, 1 << 62} {
+				q := (&search.SearchRequest{Q: []byte("message:x"), Offset: off, Size: size}).GetAPISearchRequest()
+				chReq.Add(fmt.Sprintf("storereq %d %d %d", cp, off, size), fmt.Sprintf("size=%d offset=%d limit=%d", q.Size, q.Offset, uint64(q.Size)+uint64(q.Offset)), cp > 0 && size > cp, fmt.Sprintf("cap=%d", cp))
+			}
+		}
+	}
+	conf.MaxRequestedDocuments = defaultMaxDocs
+	rep.AddChannel(chReq, o.Driver)
 	// ---- shard
 	chShard := vh.NewChannel("shard", "real searchShard vs SV.ProxySearch.searchShard: every replica script over {f,w,u,rn,rw,ru,rf}, 0..3 replicas (4 in thorough); non-trivial = at least one replica failed or refused")
 	chShard.Exhaustive = true
